@@ -238,6 +238,7 @@ func checkAlias(c *Ctx, r *Run, rule string, fns []*ssa.Function) {
 }
 
 func runC14(c *Ctx, r *Run) {
+	r.Rule("CK-BIND", "chain-key contributions are committed when sampled and revealed only as openings that gate acceptance")
 	r.Rule("CODEC-1", "every key-material literal that becomes a result (ResultRound argument or return of Derive/DeriveBIP32/Clone) sets ChainKey")
 	r.Rule("DEP-7", "the chain key of a keygen result depends on every party's contribution (or is the previous chain key on refresh)")
 	r.Rule("DEP-8", "Derive: child chain key is the newChainKey argument; secret share and every public share depend on the adjust argument")
@@ -524,6 +525,93 @@ func runC14(c *Ctx, r *Run) {
 		r.Check("SPEC-1", "internal/bip32.DeriveScalar|hardened-refused", c.Pos(ds.Pos()), hard, "indices >= 2^31 are refused", "no test of the hardened bit")
 	}
 
+	// ---- CK-BIND: a party's chain-key contribution is revealed only as the opening of a commitment made before
+	// anybody else's contribution was known: the revealed field is data of a Decommit that gates acceptance, and
+	// the committed value on the dealing side is the very contribution that is later revealed
+	for _, site := range []struct{ rel, typ, method, field string }{
+		{"protocols/cmp/keygen", "round3", "StoreBroadcastMessage", "body.C"},
+		{"protocols/frost/keygen", "round3", "StoreBroadcastMessage", "body.C_l"},
+		{"protocols/doerner/keygen", "round2S", "VerifyMessage", "body.ChainKey"},
+	} {
+		fn := c.LookupMethod(site.rel, site.typ, site.method)
+		if fn == nil {
+			r.Unresolved("CK-BIND", site.rel+"."+site.typ+"."+site.method)
+			continue
+		}
+		r.Analysed(c.FuncName(fn))
+		bound := false
+		for _, g := range liftedGuards(fn, 0) {
+			if !strings.HasSuffix(g.decider, "Hash.Decommit") || !guardCoversAccepts(g) {
+				continue
+			}
+			call := condCall(g.cond)
+			if call == nil || len(call.Call.Args) < 4 {
+				continue
+			}
+			for _, el := range variadicElems(call.Call.Args[3]) {
+				if containsField(paramFields(call.Parent(), el), site.field) {
+					bound = true
+				}
+			}
+		}
+		r.Check("CK-BIND", c.FuncName(fn)+"|"+site.field+" opened", c.Pos(fn.Pos()), bound, "the revealed chain-key contribution "+site.field+" is data of a Decommit that gates acceptance",
+			"the revealed contribution "+site.field+" is not covered by any gating Decommit: a party can choose it after seeing the others' (or reveal different values to different parties), so honest parties end with different or biased chain keys")
+	}
+	for _, site := range []struct{ rel, typ, local string }{
+		{"protocols/cmp/keygen", "round1", "chainKey"},
+		{"protocols/frost/keygen", "round1", "c_i"},
+		{"protocols/doerner/keygen", "round1R", "chainKey"},
+	} {
+		fn := c.LookupMethod(site.rel, site.typ, "Finalize")
+		if fn == nil {
+			r.Unresolved("CK-BIND", site.rel+"."+site.typ+".Finalize")
+			continue
+		}
+		r.Analysed(c.FuncName(fn))
+		// the contribution: the value this round keeps under a chain-key field of the next round until it is revealed
+		var contrib []ssa.Value
+		allInstrs(fn, func(in ssa.Instruction) {
+			var val ssa.Value
+			var fa *ssa.FieldAddr
+			switch x := in.(type) {
+			case *ssa.Store:
+				if f, ok := x.Addr.(*ssa.FieldAddr); ok {
+					fa, val = f, x.Val
+				}
+			}
+			if fa == nil || !strings.Contains(strings.ToLower(fieldName(fa.X.Type(), fa.Field)), "chainkey") {
+				return
+			}
+			// stored directly, or as the own entry of a fresh map
+			if mm, ok := resolveLoad(val).(*ssa.MakeMap); ok && mm.Referrers() != nil {
+				for _, ref := range *mm.Referrers() {
+					if mu, ok := ref.(*ssa.MapUpdate); ok {
+						contrib = append(contrib, mu.Value)
+					}
+				}
+				return
+			}
+			contrib = append(contrib, val)
+		})
+		rid := len(contrib) > 0
+		committed := false
+		for _, cv := range contrib {
+			for _, call := range callsNamed(fn, "Commit") {
+				args := call.Call.Args
+				if len(args) < 2 {
+					continue
+				}
+				for _, el := range variadicElems(args[len(args)-1]) {
+					if sameObject(stripConv(el), stripConv(cv)) || dependsOn(el, func(v ssa.Value) bool { return v == stripConv(cv) }) {
+						committed = true
+					}
+				}
+			}
+		}
+		r.Check("CK-BIND", c.FuncName(fn)+"|contribution committed", c.Pos(fn.Pos()), rid && committed, "the chain-key contribution kept for the reveal is an argument of the round's Commit",
+			"the chain-key contribution sampled in this round is not part of any commitment: it is not bound before the reveal")
+	}
+	r.Require("CK-BIND", 6)
 	r.Require("CODEC-1", 10)
 	r.Require("DEP-7", 8)
 	r.Require("DEP-8", 12)
